@@ -213,6 +213,20 @@ class Interp:
             for oid, m in snap0.muts.items():
                 s1 = snap1.saved[oid]
                 s2 = m.get_slots()
+                if isinstance(m, Frame) and s1.keys() != s2.keys():
+                    # a local bound in one branch only: keep the bound value and remember that
+                    # the name may be unbound (reading it before the next assignment is an
+                    # engine error, not a guess)
+                    out = {}
+                    for k in list(s1.keys()) + [k for k in s2 if k not in s1]:
+                        a, b = s1.get(k, UNBOUND), s2.get(k, UNBOUND)
+                        if a is UNBOUND or b is UNBOUND:
+                            out[k] = b if a is UNBOUND else a
+                            m.maybe_unbound.add(k)
+                        else:
+                            out[k] = self._merge_val(cond_t, a, b)
+                    m.set_slots(out)
+                    continue
                 m.set_slots(self._merge_slots(cond_t, s1, s2))
             val = V.merge(cond_t, v1, v2) if want_value else None
         except (NeedFork, PyRaise, ReturnSig, BreakSig, ContinueSig, CannotMerge, PathEnd) as e:
@@ -237,7 +251,13 @@ class Interp:
                 for k in list(s1.keys()) + [k for k in s2 if k not in s1]:
                     out[k] = self._merge_val(cond_t, s1.get(k, UNBOUND), s2.get(k, UNBOUND))
                 return out
-            return {k: self._merge_val(cond_t, s1[k], s2[k]) for k in s1}
+            out = {}
+            for k in s1:
+                try:
+                    out[k] = self._merge_val(cond_t, s1[k], s2[k])
+                except CannotMerge as e:
+                    raise CannotMerge(f'{e} (slot {k!r}: {type(s1[k]).__name__} / {type(s2[k]).__name__})')
+            return out
         if isinstance(s1, list):
             if len(s1) != len(s2):
                 raise CannotMerge('list length')
@@ -258,7 +278,9 @@ class Interp:
         if isinstance(a, z3.ExprRef) or isinstance(b, z3.ExprRef):
             # SSeq slot n may be python int on one side
             return z3.If(cond_t, T(a), T(b))
-        if isinstance(a, Mut) or isinstance(b, Mut):
+        def mutable(x):
+            return isinstance(x, Mut) and not (isinstance(x, SObj) and x.frozen)
+        if mutable(a) or mutable(b):
             raise CannotMerge('distinct objects')
         return V.merge(cond_t, a, b)
 
@@ -655,6 +677,8 @@ class Interp:
                 v = f.locals[name]
                 if v is UNBOUND:
                     raise PyRaise(UnboundLocalError, (name,))
+                if name in f.maybe_unbound:
+                    raise EngineError(f'local {name!r} may be unbound here (bound on one branch only)')
                 return v
             f = f.parent
         g = fr.globals
@@ -1427,6 +1451,7 @@ class Interp:
     def assign(self, tgt, v, fr):
         if isinstance(tgt, ast.Name):
             fr.locals[tgt.id] = v
+            fr.maybe_unbound.discard(tgt.id)
         elif isinstance(tgt, (ast.Tuple, ast.List)):
             items = self.iterate(v)
             if len(items) != len(tgt.elts):
